@@ -108,8 +108,12 @@ def check_runset(proj, obs, strict=True):
         out.append(({"kind": "not-rebuilt", "world": proj.w.name, "targets": missing, "cmd": op[0]},
                     {"ran": ran, "must": pred["ran"]}))
     if extra and strict:
-        out.append(({"kind": "over-built", "world": proj.w.name, "targets": extra, "cmd": op[0]},
-                    {"ran": ran, "must": pred["ran"]}))
+        sig = {"kind": "over-built", "world": proj.w.name, "targets": extra, "cmd": op[0]}
+        fwr = getattr(proj.model, "failed_while_removed", frozenset())
+        if fwr and all(fwr & set(closure_now(proj.model, [x])) for x in extra):
+            # every over-built target has, below it, a target whose rebuild failed while its file was removed
+            sig["reason"] = "dependency-failed-while-removed"
+        out.append((sig, {"ran": ran, "must": pred["ran"]}))
     return out
 
 
